@@ -3,7 +3,8 @@
    wait_timeout, mpmc recv_timeout, Blocker::park(Some d)), and the chain requested d -> armed -> timer entry ->
    fire -> verdict.  Property theorems only.
    Models: coq/Rt/TimedCallers.v (DL: one caller + environment, park abstract with the contract C02 proves; kinds
-   KFull = the code of the two loops, KRem = textbook loop, KRecomp = slip, KSingle = one park) and
+   KRem = the code of the two loops (since fix 3916da2: park for what is left of the timeout), KFull = the loops before
+   that fix (park for the full timeout every time: finding F35), KRecomp = slip, KSingle = one park) and
    coq/Rt/TimedChain.v (CH: park_timeout through AtomicDuration and the timer entry; sleep).
    [ctx_arm true] = armed by AtomicDuration (coroutine), [ctx_arm false] = exact (thread); [ctx_cap]: d <= 292 years
    in coroutine context.  [res s = Some (r, t, y)]: the last call returned r at clock t, y = its accumulated delay
@@ -17,7 +18,7 @@ Open Scope Z_scope.
 
 (* ================================ never early ================================ *)
 
-(* the deadline loops (code, textbook, even the slip) report Timeout only at or after call + d - for EVERY duration
+(* the deadline loops (the code, the code before fix 3916da2, even the slip) report Timeout only at or after call + d - for EVERY duration
    and whatever the park is armed with: the loop re-checks `Instant::now() >= deadline` itself *)
 Theorem C08_callers_loops_never_early :
   forall K retry arm s, Reach K retry arm s -> is_single K = false ->
@@ -57,7 +58,7 @@ Theorem C08_callers_parked_past_deadline_can_leave :
 Proof. exact parked_past_deadline_can_leave. Qed.
 Print Assumptions C08_callers_parked_past_deadline_can_leave.
 
-(* the single parks and the textbook loop: a stuck call has its timer pending, and that timer is due before
+(* the single parks and the deadline loops: a stuck call has its timer pending, and that timer is due before
    call + d + 1 ms + delays; in particular a timed call is never parked without a timer (zero and sub-millisecond
    durations included: Some(0) is armed as Some 0 and due at once) *)
 Theorem C08_callers_never_hang :
@@ -68,20 +69,29 @@ Theorem C08_callers_never_hang :
 Proof. exact textbook_and_single_never_hang. Qed.
 Print Assumptions C08_callers_never_hang.
 
-(* the code of recv_timeout / Cqueue::poll: the same, with call + 2 d + 1 ms in general and call + d + 1 ms as long as
-   no park of the call returned without data *)
+(* the code of mpsc recv_timeout / Cqueue::poll(Some d) as it is: never parked past call + d + 1 ms + delays *)
 Theorem C08_callers_code_loop_never_hang :
+  forall retry co s, Reach KRem retry (ctx_arm co) s -> pcs s <> Idle -> ctx_cap co (dur s) ->
+  Quiescent KRem retry (ctx_arm co) s ->
+  pcs s = Parked /\ tok s = false /\
+  exists a, ar s = Some a /\ now s < tp s + a /\ tp s + a < tcall s + dur s + MS + delay s.
+Proof. exact code_loop_never_hang. Qed.
+Print Assumptions C08_callers_code_loop_never_hang.
+
+(* the loops before fix 3916da2: call + 2 d + 1 ms in general, call + d + 1 ms only as long as no park of the call
+   returned without data *)
+Theorem C08_callers_loop_before_fix_3916da2_never_hang :
   forall retry co s, Reach KFull retry (ctx_arm co) s -> pcs s <> Idle -> ctx_cap co (dur s) ->
   Quiescent KFull retry (ctx_arm co) s ->
   pcs s = Parked /\ tok s = false /\
   exists a, ar s = Some a /\ now s < tp s + a /\ tp s + a < tcall s + dur s + dur s + MS + delay s /\
             (nsp s = 0%nat -> tp s + a < tcall s + dur s + MS + delay s).
-Proof. exact code_loop_never_hang. Qed.
-Print Assumptions C08_callers_code_loop_never_hang.
+Proof. exact loop_before_fix_never_hang. Qed.
+Print Assumptions C08_callers_loop_before_fix_3916da2_never_hang.
 
 (* ================================ the rounding bound, end to end ================================ *)
 
-(* Timeout is reported less than d + 1 ms + (delays of the call) after the call: single parks, textbook loop *)
+(* Timeout is reported less than d + 1 ms + (delays of the call) after the call: single parks and deadline loops *)
 Theorem C08_callers_prompt :
   forall K retry co s t y, K = KRem \/ K = KSingle -> Reach K retry (ctx_arm co) s -> ctx_cap co (dur s) ->
   res s = Some (RTimeout, t, y) -> t - y < tcall s + dur s + MS.
@@ -95,38 +105,43 @@ Theorem C08_callers_single_undelayed_window :
 Proof. exact single_undelayed_window. Qed.
 Print Assumptions C08_callers_single_undelayed_window.
 
-Theorem C08_callers_textbook_loop_undelayed_window :
+(* the code of mpsc recv_timeout / Cqueue::poll(Some d) as it is *)
+Theorem C08_callers_code_loop_prompt :
+  forall retry co s t y, Reach KRem retry (ctx_arm co) s -> ctx_cap co (dur s) -> res s = Some (RTimeout, t, y) ->
+  t - y < tcall s + dur s + MS.
+Proof. exact code_loop_prompt. Qed.
+Print Assumptions C08_callers_code_loop_prompt.
+
+Theorem C08_callers_code_loop_undelayed_window :
   forall retry co s t, Reach KRem retry (ctx_arm co) s -> ctx_cap co (dur s) -> res s = Some (RTimeout, t, 0) ->
   tcall s + dur s <= t < tcall s + dur s + MS.
-Proof. exact textbook_undelayed_window. Qed.
-Print Assumptions C08_callers_textbook_loop_undelayed_window.
+Proof. exact code_loop_undelayed_window. Qed.
+Print Assumptions C08_callers_code_loop_undelayed_window.
 
-(* the CODE of mpsc recv_timeout / Cqueue::poll(Some d): every iteration parks for the full timeout.
-   Partial: d + 1 ms only while no park returned without data; 2 d + 1 ms in general.
-   MISSING for the property's text ("always do return once d has elapsed", within the 1 ms granularity): the case of a
-   wake-up without data before the deadline - refuted below, reproduced on the real code (d_timed), reported. *)
-Theorem C08_callers_code_loop_prompt_partial :
+(* the loops BEFORE fix 3916da2 (every iteration parked for the full timeout; finding F35, repaired):
+   d + 1 ms only while no park returned without data; 2 d + 1 ms in general; the full statement refuted *)
+Theorem C08_callers_loop_before_fix_3916da2_prompt_partial :
   forall retry co s, Reach KFull retry (ctx_arm co) s -> pcs s <> Idle -> ctx_cap co (dur s) ->
   (nsp s = 0%nat -> now s - delay s + slack s < tcall s + dur s + MS) /\
   now s - delay s + slack s < tcall s + dur s + dur s + MS.
-Proof. exact code_loop_prompt_partial. Qed.
-Print Assumptions C08_callers_code_loop_prompt_partial.
+Proof. exact loop_before_fix_prompt_partial. Qed.
+Print Assumptions C08_callers_loop_before_fix_3916da2_prompt_partial.
 
-Theorem C08_callers_code_loop_returned_partial :
+Theorem C08_callers_loop_before_fix_3916da2_returned_partial :
   forall retry co s t y, Reach KFull retry (ctx_arm co) s -> ctx_cap co (dur s) -> res s = Some (RTimeout, t, y) ->
   t - y < tcall s + dur s + dur s + MS.
-Proof. exact code_loop_returned_partial. Qed.
-Print Assumptions C08_callers_code_loop_returned_partial.
+Proof. exact loop_before_fix_returned_partial. Qed.
+Print Assumptions C08_callers_loop_before_fix_3916da2_returned_partial.
 
 (* witness: recv_timeout(2 ms) / poll(Some(2 ms)) at clock 0, one wake-up without data at 1.5 ms (mpsc: the unpark of a
    sender whose message was consumed before the call; cqueue: a select coroutine that finished), nothing delayed:
    Timeout at 3.5 ms *)
-Theorem C08_callers_code_loop_prompt_refuted :
+Theorem C08_callers_loop_before_fix_3916da2_prompt_refuted :
   forall retry,
   ~ (forall s t y, Reach KFull retry (ctx_arm true) s -> ctx_cap true (dur s) -> res s = Some (RTimeout, t, y) ->
                    t - y < tcall s + dur s + MS).
-Proof. exact code_loop_prompt_refuted. Qed.
-Print Assumptions C08_callers_code_loop_prompt_refuted.
+Proof. exact loop_before_fix_prompt_refuted. Qed.
+Print Assumptions C08_callers_loop_before_fix_3916da2_prompt_refuted.
 
 (* ================================ the classic slips, as variants ================================ *)
 
@@ -151,7 +166,8 @@ Theorem C08_callers_floor_single_hang_refuted :
 Proof. exact floor_single_hang_refuted. Qed.
 Print Assumptions C08_callers_floor_single_hang_refuted.
 
-(* (the third slip, "remaining computed as d instead of deadline - now", IS the code: C08_callers_code_loop_prompt_refuted) *)
+(* (the third slip, "remaining computed as d instead of deadline - now", WAS the code until fix 3916da2:
+   C08_callers_loop_before_fix_3916da2_prompt_refuted) *)
 
 (* ================================ sleep, and the chain ================================ *)
 
@@ -205,12 +221,12 @@ Print Assumptions C08_callers_requested_to_timeout_chain.
 
 (* ================================ non-vacuity ================================ *)
 
-Example C08_callers_nonvacuous_textbook_timeout :
+Example C08_callers_nonvacuous_code_loop_timeout :
   exists s, Reach KRem true armed s /\ res s = Some (RTimeout, 2500000, 0) /\ tcall s = 0 /\ dur s = 2000000.
 Proof. exact rem_prompt_example. Qed.
 
 Example C08_callers_nonvacuous_quiescent_parked :
-  exists s, Reach KFull true armed s /\ pcs s <> Idle /\ Quiescent KFull true armed s /\ dur s <= DCAP /\
+  exists s, Reach KRem true armed s /\ pcs s <> Idle /\ Quiescent KRem true armed s /\ dur s <= DCAP /\
             ar s = Some 2000000 /\ now s = 1000000 /\ tp s = 0.
 Proof. exact quiescent_parked_example. Qed.
 
@@ -227,10 +243,11 @@ Example C08_callers_nonvacuous_fired_before_published :
   exists s, CReach CPark s /\ cres s = Some (VTimeout, 30000000) /\ ud s = 1000000.
 Proof. exact chain_example_fired_before_published. Qed.
 
-(* the differential function agrees with the theorems on the witness script: the code is late, the textbook loop is not *)
+(* the differential function agrees with the theorems on the witness script: the code before the fix (api 20) is late,
+   the code (api 0) is not *)
 Example C08_callers_nonvacuous_run :
-  tc_run_all [0; 0; 0; 2000000; 1; 3500000; 1500000; 2] = [1; 3500000] /\
-  tc_run_all [10; 0; 0; 2000000; 1; 2500000; 1500000; 2] = [1; 2500000] /\
+  tc_run_all [20; 0; 0; 2000000; 1; 3500000; 1500000; 2] = [1; 3500000] /\
+  tc_run_all [0; 0; 0; 2000000; 1; 2500000; 1500000; 2] = [1; 2500000] /\
   tc_run_all [2; 0; 0; 1900000; 1; 2000000] = [1; 2000000] /\
   tc_run_all [2; 1; 0; 1900000; 1; 1900000] = [1; 1900000] /\
   tc_run_all [3; 0; 7; 1900000; 1; 1900007] = [1; 1900007] /\
